@@ -521,6 +521,7 @@ def levelStep (c : Byte) (pos : Bytes) (st : Loop) : R (Loop × Bytes) :=
     let (item, next) := strtoulS 0 pos
     if next = pos then .error (.einval, log)
     else if item = 0 then .error (.einval, log)
+    else if item > ulongMax / st.total then .error (.einval, log)      -- the total number of objects would wrap
     else
       let total := (st.total * item) % u64
       let res : Except Err (Bytes × Attr × Idx) :=
